@@ -25,7 +25,7 @@ ZonesQuick == Curated \cup SinglesQuick
 ZonesSpellQuick == {Z1, Z2, Z3, ZG, ZG2}
 ZonesSpellThorough == Curated \cup SinglesQuick
 ZonesVac == {Z1, ZG}
-ZonesThorough == Curated \cup Singles \cup WellFormedPairs
+ZonesThorough == Curated \cup {ZoneOf({r}) : r \in {r \in AllRecs : r[3] = 300}} \cup WellFormedPairs
 
 (* vacuity witnesses (expected to be violated) *)
 Vac_Done == ~EmitDone
